@@ -6,7 +6,7 @@
 // re-computation in verif/model/geomref.
 //
 // What the oracle demands (read from the property, nothing more):
-//   * GlyphList: each glyph of the font exactly once and nothing else, .notdef
+//   - GlyphList: each glyph of the font exactly once and nothing else, .notdef
 //     first (also when the glyph map has no .notdef entry: the reported glyph
 //     count includes it), then the encoded glyphs in code order, then the
 //     others alphabetically; len(list) == NumGlyphs() == number of glyph names
@@ -14,25 +14,25 @@
 //     position of any of its codes (the property does not say which code
 //     counts); names in the encoding without a glyph are ignored; ".notdef" in
 //     the encoding assigns nothing.
-//   * Glyph.BBox: smallest rectangle containing the end points of the move,
+//   - Glyph.BBox: smallest rectangle containing the end points of the move,
 //     line and curve commands (control points and closepath do not count);
 //     four zeros when there is no end point.  Exact comparison (no arithmetic).
-//   * GlyphBBoxPDF: the same for the end points mapped by
+//   - GlyphBBoxPDF: the same for the end points mapped by
 //     ((a*x + c*y + e)*1000, (b*x + d*y + f)*1000); four zeros for a missing
 //     glyph or one without end points.
-//   * FontBBox / FontBBoxPDF: union of the non-empty glyph boxes.  The
+//   - FontBBox / FontBBoxPDF: union of the non-empty glyph boxes.  The
 //     representation has no "empty" flag: a box is reported as empty by four
 //     zeros ("zero for missing or empty glyphs"), so a glyph whose end points
 //     all map to the origin has a box which cannot be told from an empty one.
 //     The oracle therefore accepts both readings for such a glyph (its box
 //     skipped, or the origin included) and nothing else: a glyph without end
 //     points never contributes, every other glyph must contribute.
-//   * widths: GlyphWidthPDF(name) = WidthX * a * 1000 for a glyph of the font,
+//   - widths: GlyphWidthPDF(name) = WidthX * a * 1000 for a glyph of the font,
 //     the value for .notdef for any other name, 0 if there is no .notdef;
 //     WidthsMapPDF has exactly the glyphs of the font as keys and agrees with
 //     the per-glyph call.  For afm.Metrics (no font matrix; AFM units are
 //     1/1000 em) the width is WidthX itself, compared exactly.
-//   * BuiltinEncoding returns the Encoding field.
+//   - BuiltinEncoding returns the Encoding field.
 //
 // Tolerances: values which involve products/sums that the library may form in
 // another order (GlyphBBoxPDF, FontBBoxPDF, PDF widths of type1.Font, map vs.
@@ -68,8 +68,12 @@ const neverPresent = "zzz"
 
 // ---------------------------------------------------------------- outlines
 
-func mv(x, y float64) geomref.Cmd { return geomref.Cmd{Kind: geomref.Move, Pts: []geomref.Point{{X: x, Y: y}}} }
-func ln(x, y float64) geomref.Cmd { return geomref.Cmd{Kind: geomref.Line, Pts: []geomref.Point{{X: x, Y: y}}} }
+func mv(x, y float64) geomref.Cmd {
+	return geomref.Cmd{Kind: geomref.Move, Pts: []geomref.Point{{X: x, Y: y}}}
+}
+func ln(x, y float64) geomref.Cmd {
+	return geomref.Cmd{Kind: geomref.Line, Pts: []geomref.Point{{X: x, Y: y}}}
+}
 func cv(a, b, c, d, e, f float64) geomref.Cmd {
 	return geomref.Cmd{Kind: geomref.Curve, Pts: []geomref.Point{{X: a, Y: b}, {X: c, Y: d}, {X: e, Y: f}}}
 }
@@ -577,11 +581,12 @@ func rectBody(rects [][4]int) func(c *mc.Ctx, item int) mc.Verdict {
 // ---------------------------------------------------------------- families
 
 func families(tier string) []mc.Family {
-	nOut, nMat := quickOutlines, quickMatrices
-	budget := 40 * time.Second
+	// budgets per family: they sum to 45 s (quick) / 9.5 min (thorough)
+	nOut, nMat, nRot := quickOutlines, quickMatrices, 2
+	budgets := []time.Duration{4 * time.Second, 28 * time.Second, 4 * time.Second, 7 * time.Second, 2 * time.Second}
 	if tier == "thorough" {
-		nOut, nMat = len(outlines), len(matrices)
-		budget = 9 * time.Minute
+		nOut, nMat, nRot = len(outlines), len(matrices), 1
+		budgets = []time.Duration{20 * time.Second, 480 * time.Second, 20 * time.Second, 40 * time.Second, 10 * time.Second}
 	}
 	nEnc := numEncodings()
 	nKinds := len(encKindNames)
@@ -600,7 +605,6 @@ func families(tier string) []mc.Family {
 		return checkMetrics(c, afmCase{mask: item / nEnc, enc: enc, encDesc: desc, box: defBox})
 	}
 	// item = (glyph set, matrix, encoding kind, width rotation); outlines by Choose
-	nRot := 2
 	fontGeom := func(c *mc.Ctx, item int) mc.Verdict {
 		rot := item % nRot
 		kind := (item / nRot) % nKinds
@@ -614,10 +618,11 @@ func families(tier string) []mc.Family {
 		}
 		return checkFont(c, fc)
 	}
+	const afmRot = 2
 	afmGeom := func(c *mc.Ctx, item int) mc.Verdict {
-		rot := item % nRot
-		kind := (item / nRot) % nKinds
-		mask := item / nRot / nKinds
+		rot := item % afmRot
+		kind := (item / afmRot) % nKinds
+		mask := item / afmRot / nKinds
 		ac := afmCase{mask: mask, enc: encodingOfKind(kind), encDesc: encKindNames[kind], widthRot: rot * 2}
 		for i := range namePool {
 			if mask&(1<<i) != 0 {
@@ -629,28 +634,28 @@ func families(tier string) []mc.Family {
 	descFont := func(item int) string { return fmt.Sprintf("type1 geometry item %d", item) }
 	return []mc.Family{
 		{
-			Name: "type1/encodings", Items: 32 * nEnc, Body: fontEnc, Budget: budget,
-			Rule: "item = glyph set (all 32 subsets of {.notdef,space,A,B,Aacute}) x encoding (nil, or every assignment of a name from {.notdef = unassigned, space, A, B, Aacute, zzz} to each of the codes 0, 65, 66, 255: 1296 vectors incl. all-.notdef, partial, names without glyph, 2-4 codes for one glyph); fixed outlines, standard matrix; all query methods checked for all 6 names; non-trivial = the library's answers contain a list of >= 2 names, a non-zero font box or a non-zero .notdef width",
+			Name: "type1/encodings", Items: 32 * nEnc, Body: fontEnc, Budget: budgets[0],
+			Rule:     "item = glyph set (all 32 subsets of {.notdef,space,A,B,Aacute}) x encoding (nil, or every assignment of a name from {.notdef = unassigned, space, A, B, Aacute, zzz} to each of the codes 0, 65, 66, 255: 1296 vectors incl. all-.notdef, partial, names without glyph, 2-4 codes for one glyph); fixed outlines, standard matrix; all query methods checked for all 6 names; non-trivial = the library's answers contain a list of >= 2 names, a non-zero font box or a non-zero .notdef width",
 			Describe: func(i int) string { return fmt.Sprintf("type1 encoding item %d", i) }, CrashKey: func(int) string { return "C19:crash:type1/encodings" },
 		},
 		{
-			Name: "type1/outlines-matrices", Items: 32 * nMat * nKinds * nRot, Body: fontGeom, Budget: budget,
-			Rule: fmt.Sprintf("item = glyph set (32) x font matrix (%d axis-aligned: standard, negative a, negative d, d = 0, non-uniform, with translation%s) x encoding kind (nil, all .notdef, partial, naming missing glyphs, two codes -> one glyph) x 2 width assignments; every present glyph takes every outline of a family of %d (empty, move only, lines, curves with control points outside the end-point box, several contours, closepath, points at the origin, point cancelled by the translation%s) by Choose; all query methods for all 6 names; non-trivial as above",
-				nMat, map[bool]string{true: ", identity, 1/2048, a = 0, negative with d = 0 and translation", false: ""}[tier == "thorough"], nOut, map[bool]string{true: ", closepath only, single point, fractional, curve without moveto, line through the origin", false: ""}[tier == "thorough"]),
+			Name: "type1/outlines-matrices", Items: 32 * nMat * nKinds * nRot, Body: fontGeom, Budget: budgets[1],
+			Rule: fmt.Sprintf("item = glyph set (32) x font matrix (%d axis-aligned: standard, negative a, negative d, d = 0, non-uniform, with translation%s) x encoding kind (nil, all .notdef, partial, naming missing glyphs, two codes -> one glyph) x %d width assignment(s); every present glyph takes every outline of a family of %d (empty, move only, lines, curves with control points outside the end-point box, several contours, closepath, points at the origin, point cancelled by the translation%s) by Choose; all query methods for all 6 names; non-trivial as above",
+				nMat, map[bool]string{true: ", identity, 1/2048, a = 0, negative with d = 0 and translation", false: ""}[tier == "thorough"], nRot, nOut, map[bool]string{true: ", closepath only, single point, fractional, curve without moveto, line through the origin", false: ""}[tier == "thorough"]),
 			Describe: descFont, CrashKey: func(int) string { return "C19:crash:type1/outlines-matrices" },
 		},
 		{
-			Name: "afm/encodings", Items: 32 * nEnc, Body: afmEnc, Budget: budget,
+			Name: "afm/encodings", Items: 32 * nEnc, Body: afmEnc, Budget: budgets[2],
 			Rule:     "item = glyph set (32) x encoding (1297, as for type1/encodings); GlyphList, NumGlyphs, FontBBoxPDF, GlyphWidthPDF for all 6 names; non-trivial as above",
 			Describe: func(i int) string { return fmt.Sprintf("afm encoding item %d", i) }, CrashKey: func(int) string { return "C19:crash:afm/encodings" },
 		},
 		{
-			Name: "afm/boxes-widths", Items: 32 * nKinds * nRot, Body: afmGeom, Budget: budget,
+			Name: "afm/boxes-widths", Items: 32 * nKinds * afmRot, Body: afmGeom, Budget: budgets[3],
 			Rule:     fmt.Sprintf("item = glyph set (32) x encoding kind (5) x 2 width assignments; every present glyph takes every box of %d (zero, positive, touching the origin from below, straddling, degenerate lines through the origin, single point, negative, fractional) by Choose; non-trivial as above", len(afmBoxes)),
 			Describe: func(i int) string { return fmt.Sprintf("afm geometry item %d", i) }, CrashKey: func(int) string { return "C19:crash:afm/boxes-widths" },
 		},
 		{
-			Name: "funit/rect-union", Items: len(rects) * len(rects), Body: rectBody(rects), Budget: budget,
+			Name: "funit/rect-union", Items: len(rects) * len(rects), Body: rectBody(rects), Budget: budgets[4],
 			Rule:     "item = first two rectangles, Choose = optional third, all from the 36 well-formed rectangles with coordinates in {-2,0,3}; a zero Rect16/Rect extended by them in turn must be the union of the non-zero ones; non-trivial = at least one non-zero rectangle",
 			Describe: func(i int) string { return fmt.Sprintf("funit item %d", i) }, CrashKey: func(int) string { return "C19:crash:funit/rect-union" },
 		},
